@@ -8,11 +8,12 @@ def gen_program(r, lps=None, heavy_mem=False, ties=True, target=None, zero_ts=Fa
     ntypes = r.range(2, 6)
     ncls = r.range(1, 3)
     p = dict(lps=lps, ncls=ncls, target=target if target is not None else r.choice([3, 10, 25, 60]),
-             seed=r.u64(), grid=r.choice([0, 1, 3]), inits=[], rows=[], targets=[])
+             seed=r.u64(), grid=r.choice([0, 1, 3]), inits=[], rows=[], targets=[], plmode=r.choice([0, 1]))
+    sizes = SIZES if not p["plmode"] else [0, 33, 40, 40, 100, 100]     # ties on the first 32 payload bytes need payloads beyond 32 bytes
     for lp in range(lps):
         k = r.choice([0, 1, 1, 2, 3]) if lps > 1 else r.range(1, 3)
         for _ in range(k):
-            p["inits"].append((lp, 0 if zero_ts and r.chance(1, 2) else r.choice([0, 1, 1, 2, 5, 8]), r.below(ntypes), r.choice(SIZES)))
+            p["inits"].append((lp, 0 if zero_ts and r.chance(1, 2) else r.choice([0, 1, 1, 2, 5, 8]), r.below(ntypes), r.choice(sizes)))
     if not p["inits"]:
         p["inits"].append((0, 1, 0, 8))
     for ty in range(ntypes):
@@ -32,13 +33,14 @@ def gen_program(r, lps=None, heavy_mem=False, ties=True, target=None, zero_ts=Fa
                         dt = 1
                     else:
                         oty = r.below(ty)      # strictly smaller type: strictly after its cause in the content order
-                outs.append((r.below(4), r.below(lps + 2), dt, oty, r.choice(SIZES)))
+                outs.append((r.below(4), r.below(lps + 2), dt, oty, r.choice(sizes)))
             p["rows"].append((ty, cls, draws, mem, outs))
     return p
 
 
 def render(p):
-    out = ["lps %d" % p["lps"], "ncls %d" % p["ncls"], "target %d" % p["target"], "seed 0x%x" % p["seed"], "grid %d" % p["grid"]]
+    out = ["lps %d" % p["lps"], "ncls %d" % p["ncls"], "target %d" % p["target"], "seed 0x%x" % p["seed"], "grid %d" % p["grid"],
+           "plmode %d" % p.get("plmode", 0)]
     if p.get("stopat"):
         out.append("stopat %d %d" % p["stopat"])
     for t in p.get("targets", []):
